@@ -10,6 +10,8 @@
 #include <stdlib.h>
 #include <string.h>
 #include <unistd.h>
+#include <fcntl.h>
+#include <sys/wait.h>
 
 /* Two builds of this file: the plain one (op files, OS-scheduled stress) and, with -DSBA_SCHED, one linked with
  * harness/detsched.c where every pthread mutex call of the LIBRARY is a schedule point (scenario / explore ops).
@@ -24,6 +26,9 @@ int __real_pthread_mutex_unlock(pthread_mutex_t *m);
 #    define HLOCK(m) pthread_mutex_lock(m)
 #    define HUNLOCK(m) pthread_mutex_unlock(m)
 #endif
+
+#define HUGE_TOUCH_LIMIT ((size_t)1 << 20)
+#define HUGE_BACKED_LIMIT ((size_t)1 << 41)
 
 /* ------------------------------------------------------------------ page tracking (link-time wrap) */
 int __real_posix_memalign(void **out, size_t align, size_t size);
@@ -322,7 +327,96 @@ static struct aws_allocator s_parent_bare = {
     .mem_release = s_par_release,
 };
 
-static const char *s_parent_names[] = {"hc", "malloc", "default", "aligned", "norealloc", "nocalloc", "bare", NULL};
+/* `fake` backend: serves any size without real memory, so that requests of 2^31+1 .. SIZE_MAX/2 bytes can be made.
+ * <= 2^20: malloc; <= 2^41: an mmap(MAP_NORESERVE) region (only the touched prefix is ever committed);
+ * larger: two mapped pages (the allocator reads the page base of a block on release), the rest never exists. */
+#include <sys/mman.h>
+#ifndef MAP_ANONYMOUS
+#    define MAP_ANONYMOUS 0x20 /* Linux; hidden by the strict feature-test macros of this build */
+#endif
+#ifndef MAP_NORESERVE
+#    define MAP_NORESERVE 0x4000
+#endif
+struct fake_rec {
+    void *p;
+    size_t size;
+};
+static struct fake_rec s_fake[4096];
+static size_t s_fake_n;
+
+static void *s_fake_acquire(struct aws_allocator *a, size_t size) {
+    (void)a;
+    void *p;
+    if (size <= HUGE_TOUCH_LIMIT) {
+        return malloc(size);
+    }
+    if (size <= HUGE_BACKED_LIMIT) {
+        p = mmap(NULL, size, PROT_READ | PROT_WRITE, MAP_PRIVATE | MAP_ANONYMOUS | MAP_NORESERVE, -1, 0);
+        HC_CHECK(p != MAP_FAILED);
+    } else {
+        /* not backed beyond two pages: s_sba_free reads the words at the page base of every pointer it is given, so
+         * the start of the block must be readable; nothing else of it is ever touched */
+        p = mmap(NULL, 8192, PROT_READ | PROT_WRITE, MAP_PRIVATE | MAP_ANONYMOUS, -1, 0);
+        HC_CHECK(p != MAP_FAILED);
+    }
+    HC_CHECK(s_fake_n < 4096);
+    s_fake[s_fake_n].p = p;
+    s_fake[s_fake_n].size = size;
+    ++s_fake_n;
+    return p;
+}
+
+static size_t s_fake_size(void *p, bool remove) {
+    for (size_t i = 0; i < s_fake_n; ++i) {
+        if (s_fake[i].p == p) {
+            size_t sz = s_fake[i].size;
+            if (remove) {
+                s_fake[i] = s_fake[--s_fake_n];
+            }
+            return sz;
+        }
+    }
+    return 0;
+}
+
+static void s_fake_release(struct aws_allocator *a, void *p) {
+    (void)a;
+    size_t sz = s_fake_size(p, true);
+    if (!sz) {
+        free(p);
+    } else {
+        munmap(p, sz <= HUGE_BACKED_LIMIT ? sz : 8192);
+    }
+}
+
+static void *s_fake_realloc(struct aws_allocator *a, void *p, size_t oldsize, size_t newsize) {
+    void *n = s_fake_acquire(a, newsize);
+    size_t keep = oldsize < newsize ? oldsize : newsize;
+    if (p) {
+        if (oldsize <= HUGE_BACKED_LIMIT && newsize <= HUGE_BACKED_LIMIT) {
+            memcpy(n, p, keep < 4096 ? keep : 4096);
+        }
+        s_fake_release(a, p);
+    }
+    return n;
+}
+
+static void *s_fake_calloc(struct aws_allocator *a, size_t num, size_t size) {
+    void *p = s_fake_acquire(a, num * size);
+    if (num * size <= HUGE_TOUCH_LIMIT) {
+        memset(p, 0, num * size);
+    }
+    return p;
+}
+
+static struct aws_allocator s_fake_alloc = {
+    .mem_acquire = s_fake_acquire,
+    .mem_release = s_fake_release,
+    .mem_realloc = s_fake_realloc,
+    .mem_calloc = s_fake_calloc,
+};
+
+static const char *s_parent_names[] = {"hc", "malloc", "default", "aligned", "norealloc", "nocalloc", "bare", "fake", NULL};
 
 static int s_parent_kind(const char *name) {
     for (int i = 0; s_parent_names[i]; ++i) {
@@ -360,14 +454,28 @@ static struct blk *s_find(const char *name) {
     return NULL;
 }
 
+/* HUGE requests (served by the `fake` parent without real memory): only a prefix of the block is ever touched.
+ *   size <= 2^20           the whole block
+ *   2^20 < size <= 2^41    the first 256 bytes (the fake parent maps such blocks MAP_NORESERVE)
+ *   size > 2^41            nothing: the fake parent hands out an address it never backs */
+static size_t s_touch_of(size_t size) {
+    return size <= HUGE_TOUCH_LIMIT ? size : size <= HUGE_BACKED_LIMIT ? 256 : 0;
+}
+
+static size_t s_span_of(size_t size) { /* length used in overlap tests: no pointer wrap-around */
+    return size <= HUGE_BACKED_LIMIT ? size : 8192;
+}
+
 static void s_fill(struct blk *b) {
-    for (size_t i = 0; i < b->size; ++i) {
+    size_t n = s_touch_of(b->size);
+    for (size_t i = 0; i < n; ++i) {
         b->ptr[i] = s_pat(b->k, i);
     }
 }
 
 static int s_intact(const struct blk *b) {
-    for (size_t i = 0; i < b->size; ++i) {
+    size_t n = s_touch_of(b->size);
+    for (size_t i = 0; i < n; ++i) {
         if (b->ptr[i] != s_pat(b->k, i)) {
             return 0;
         }
@@ -409,13 +517,13 @@ static void s_checks(const struct blk *bl, size_t n, int *disjoint, int *align, 
             /* inside its page, beyond the header */
             size_t off = 0;
             long ord = s_page_of(a->ptr, 0, NULL, &off);
-            if (ord < 0 || off < s_hdr || off + a->size > s_page_size) {
+            if (ord < 0 || off < s_hdr || a->size > s_page_size || off + a->size > s_page_size) {
                 *disjoint = 0;
             }
         }
         for (size_t j = i + 1; j < n; ++j) {
             const struct blk *b = &bl[j];
-            if (a->ptr < b->ptr + b->size && b->ptr < a->ptr + a->size) {
+            if (a->ptr < b->ptr + s_span_of(b->size) && b->ptr < a->ptr + s_span_of(a->size)) {
                 *disjoint = 0;
             }
         }
@@ -448,7 +556,10 @@ static void s_new(bool mt, int parent_kind) {
     s_double_release = 0;
     HUNLOCK(&s_pg_lock);
     s_par_raw = parent_kind == 1;
-    s_backend = parent_kind == 2 ? aws_default_allocator() : parent_kind == 3 ? aws_aligned_allocator() : hc_allocator();
+    s_backend = parent_kind == 2   ? aws_default_allocator()
+                : parent_kind == 3 ? aws_aligned_allocator()
+                : parent_kind == 7 ? &s_fake_alloc
+                                   : hc_allocator();
     s_par_base = s_par_n;
     s_backend_base = s_backend_live;
     struct aws_allocator *par = parent_kind == 4   ? &s_parent_norealloc
@@ -1235,8 +1346,35 @@ int main(void) {
         } else if (!strcmp(t[0], "calloc") && n == 4) {
             bool ok;
             size_t k = s_block_no(t[1], &ok), num = hc_parse_size(t[2]), size = hc_parse_size(t[3]);
-            if (!ok || num == 0 || size == 0 || num > SIZE_MAX / size || s_find(t[1]) || s_nblk >= MAXBLK) {
+            if (!ok || num == 0 || size == 0 || s_find(t[1]) || s_nblk >= MAXBLK) {
                 printf("bad-op\n");
+                continue;
+            }
+            if (num > SIZE_MAX / size) {
+                /* num * size does not fit a size_t: the library must refuse (fatal assert -> abort), it must not
+                 * hand out a block.  Tried in a forked child; the allocator of this process is untouched. */
+                fflush(stdout);
+                pid_t pid = fork();
+                HC_CHECK(pid >= 0);
+                if (pid == 0) {
+                    int devnull = open("/dev/null", O_WRONLY);
+                    if (devnull >= 0) {
+                        dup2(devnull, 2);
+                    }
+                    void *r = aws_mem_calloc(s_sba, num, size);
+                    _exit(r ? 7 : 8);
+                }
+                int st = 0;
+                waitpid(pid, &st, 0);
+                if (WIFSIGNALED(st) || (WIFEXITED(st) && WEXITSTATUS(st) != 7 && WEXITSTATUS(st) != 8)) {
+                    printf("P calloc refused\n");
+                } else {
+                    printf("P calloc accepted: a block was returned for %zu x %zu bytes\n", num, size);
+                }
+                continue;
+            }
+            if (num * size > HUGE_TOUCH_LIMIT) {
+                printf("bad-op\n"); /* s_sba_mem_calloc memsets the whole block: not runnable on the fake parent */
                 continue;
             }
             struct blk *b = &s_blk[s_nblk++];
@@ -1255,8 +1393,8 @@ int main(void) {
         } else if (!strcmp(t[0], "realloc") && n == 4) {
             struct blk *b = s_find(t[1]);
             size_t old = hc_parse_size(t[2]), nsz = hc_parse_size(t[3]);
-            if (!b || old != b->size) {
-                printf("bad-op\n");
+            if (!b || old != b->size || (old > HUGE_BACKED_LIMIT && nsz != 0)) {
+                printf("bad-op\n"); /* an unbacked block can only be released */
                 continue;
             }
             void *p = b->ptr;
@@ -1270,7 +1408,7 @@ int main(void) {
                 b->ptr = p;
                 b->size = nsz;
                 s_identify(b, nsz, b->ptr == oldp);
-                size_t keep = old < nsz ? old : nsz, kept = 0;
+                size_t keep = s_touch_of(old) < s_touch_of(nsz) ? s_touch_of(old) : s_touch_of(nsz), kept = 0;
                 for (size_t i = 0; i < keep; ++i) {
                     kept += b->ptr[i] == s_pat(b->k, i);
                 }
